@@ -88,3 +88,173 @@ Proof.
   - destruct (t_cwnd t2 / 2 <? t_mss t2) eqn:L; destruct t2; simpl in *; subst; split; try reflexivity.
     apply Z.ltb_ge in L. exact L.
 Qed.
+
+(* ---------- no stuck state is left behind ---------- *)
+
+Lemma recv_h_set (t : tcp) x y z : t_recv_h (t <| t_recv_h := x |> <| t_recv_buf := y |>) = x /\
+  t_recv_h (t <| t_wait_recv_h := z |> <| t_recv_null := true |>) = t_recv_h t /\
+  t_recv_null (t <| t_wait_recv_h := z |> <| t_recv_null := true |>) = true.
+Proof. destruct t; repeat split; reflexivity. Qed.
+
+Lemma wait_read_post s h w :
+  let t' := get_tcp (fst (tcp_wait_read_impl s h w)) s in
+  t_recv_h t' = None \/ t_recv_null t' = true.
+Proof.
+  cbv zeta. unfold tcp_wait_read_impl. destruct (tcp_available (get_tcp w s)) as [e n].
+  destruct (negb (e =? EC_OK)); [|destruct (0 <? n)]; cbn [fst]; rewrite get_set_tcp.
+  - left. apply (recv_h_set (get_tcp w s) None [] None).
+  - left. apply (recv_h_set (get_tcp w s) None [] None).
+  - right. apply (recv_h_set (get_tcp w s) None [] (Some h)).
+Qed.
+
+Lemma async_read_post s bufs h w ci p q :
+  let t := get_tcp w s in
+  t_open t = true -> t_chan t = Some ci -> t_connect_h t = None -> t_inq t = p :: q ->
+  (p_type p = PError -> p_ec p <> EC_WOULD_BLOCK) ->
+  t_recv_h (get_tcp (fst (tcp_async_read_impl s bufs h w)) s) = None.
+Proof.
+  cbv zeta. intros Ho Hc Hh Hq Hp. unfold tcp_async_read_impl.
+  destruct (p_type p) eqn:T.
+  5:{ (* the end-of-file / error marker *)
+      unfold tcp_read_some. rewrite Ho, Hc, Hh, Hq, T. cbn [negb].
+      specialize (Hp eq_refl). replace (p_ec p =? EC_WOULD_BLOCK) with false by (symmetry; apply Z.eqb_neq; exact Hp).
+      destruct (negb (p_ec p =? EC_OK)); cbn [fst]; rewrite get_set_tcp;
+        match goal with |- t_recv_h (?t <| t_recv_h := None |> <| t_recv_buf := [] |>) = None =>
+          apply (recv_h_set t None [] None) end. }
+  all: assert (p_type p <> PError) as Hne by (rewrite T; discriminate);
+       destruct (tcp_read_some_is_rx_read s bufs w ci p q Ho Hc Hh Hq Hne) as [E _]; rewrite E;
+       change (EC_OK =? EC_WOULD_BLOCK) with false; change (EC_OK =? EC_OK) with true; cbn [negb fst];
+       rewrite get_set_tcp;
+       match goal with |- t_recv_h (?t <| t_recv_h := None |> <| t_recv_buf := [] |>) = None =>
+         apply (recv_h_set t None [] None) end.
+Qed.
+
+(* After the reader wake-up (which runs whenever a segment is appended to the
+   incoming queue) an established socket never has a read outstanding while the
+   queue holds something: the read either completed or the queue is empty. *)
+Theorem no_read_is_left_pending_on_queued_data cx s w ci :
+  d7_wakeup_fixed (cv cx) = true ->
+  let t := get_tcp w s in
+  t_open t = true -> t_chan t = Some ci -> t_connect_h t = None ->
+  (forall p, In p (t_inq t) -> p_type p = PError -> p_ec p <> EC_WOULD_BLOCK) ->
+  let t' := get_tcp (fst (tcp_maybe_wakeup_reader cx s w)) s in
+  forall h, t_recv_h t' = Some h -> t_recv_null t' = false -> t_inq t' = [].
+Proof.
+  intros D. cbv zeta. intros Ho Hc Hh Hec h'. unfold tcp_maybe_wakeup_reader. rewrite D.
+  destruct (t_inq (get_tcp w s)) as [|p q] eqn:Q.
+  { (* nothing queued: nothing happens *)
+    cbn [length Nat.eqb negb].
+    destruct (t_recv_h (get_tcp w s)), (t_wait_recv_h (get_tcp w s)); cbn [fst]; intros _ _; exact Q. }
+  cbn [length Nat.eqb negb].
+  assert (p_type p = PError -> p_ec p <> EC_WOULD_BLOCK) as Hp by (apply Hec; left; reflexivity).
+  set (t := get_tcp w s) in *.
+  assert (forall x, t_open (t <| t_recv_h := x |>) = true /\ t_chan (t <| t_recv_h := x |>) = Some ci /\
+                    t_connect_h (t <| t_recv_h := x |>) = None /\ t_inq (t <| t_recv_h := x |>) = p :: q) as Est
+    by (intros x; destruct t; simpl in *; auto).
+  destruct (t_recv_h t) as [rh|] eqn:R; destruct (t_wait_recv_h t) as [wh|] eqn:Wt.
+  4:{ cbn [fst]. fold t. rewrite R. discriminate. }
+  all: destruct (t_recv_null t) eqn:Nl.
+  - destruct (wait_read_post s wh (set_tcp w s (t <| t_wait_recv_h := None |>))) as [X|X]; intros A B; congruence.
+  - destruct (Est None) as (E1 & E2 & E3 & E4).
+    intros A. rewrite (async_read_post s (t_recv_buf t) rh (set_tcp w s (t <| t_recv_h := None |>)) ci p q) in A;
+      rewrite ?get_set_tcp; auto. discriminate.
+  - cbn [fst]. fold t. rewrite Nl. discriminate.
+  - destruct (Est None) as (E1 & E2 & E3 & E4).
+    intros A. rewrite (async_read_post s (t_recv_buf t) rh (set_tcp w s (t <| t_recv_h := None |>)) ci p q) in A;
+      rewrite ?get_set_tcp; auto. discriminate.
+  - destruct (wait_read_post s wh (set_tcp w s (t <| t_wait_recv_h := None |>))) as [X|X]; intros A B; congruence.
+  - cbn [fst]. fold t. rewrite R. discriminate.
+Qed.
+
+Lemma send_h_set (t : tcp) x y : t_send_h (t <| t_send_h := x |> <| t_send_buf := y |>) = x.
+Proof. destruct t; reflexivity. Qed.
+
+(* a write attempted with room in the window never leaves its handler parked *)
+Lemma async_write_post cx s bufs h w ci :
+  let t := get_tcp w s in
+  t_open t = true -> t_chan t = Some ci -> t_connect_h t = None ->
+  t_inflight t + t_mss t <= t_cwnd t ->
+  t_send_h (get_tcp (fst (tcp_async_write_impl cx s bufs h w)) s) = None.
+Proof.
+  cbv zeta. intros Ho Hc Hh Hroom. unfold tcp_async_write_impl, tcp_write_some. rewrite Ho, Hc, Hh. cbn [negb].
+  destruct (chan_hops _ _) as [|h0 hs].
+  - change (EC_NOT_CONNECTED =? EC_WOULD_BLOCK) with false. change (EC_NOT_CONNECTED =? EC_OK) with false.
+    cbn [negb fst]. rewrite get_set_tcp. apply send_h_set.
+  - replace (t_cwnd (get_tcp w s) <? t_inflight (get_tcp w s) + t_mss (get_tcp w s)) with false
+      by (symmetry; apply Z.ltb_ge; lia).
+    destruct (write_loop _ _ _ _ _ _ _) as [[r w1] c].
+    change (EC_OK =? EC_WOULD_BLOCK) with false. change (EC_OK =? EC_OK) with true. cbn [negb fst].
+    rewrite get_set_tcp. apply send_h_set.
+Qed.
+
+(* After an acknowledgement has been processed, an established socket never has a
+   write parked while a further segment fits the window. *)
+Theorem no_writer_is_left_blocked_with_room cx s p w acked ci :
+  d33_writer_level (cv cx) = true -> p_type p = PAck ->
+  outst_find (t_outst (get_tcp w s)) (p_seq p) = Some acked ->
+  let t := get_tcp w s in
+  let t1 := t <| t_outst := filter (fun x => negb (fst x =? p_seq p)) (t_outst t) |>
+              <| t_inflight := t_inflight t - acked |> in
+  let r := resend_loop cx (length (t_outgoing t1)) s (set_tcp w s t1) in
+  let tr := get_tcp (fst r) s in
+  t_open tr = true -> t_chan tr = Some ci -> t_connect_h tr = None ->
+  let t' := get_tcp (fst (tcp_incoming cx s p w)) s in
+  forall h, t_send_h t' = Some h -> t_cwnd t' < t_inflight t' + t_mss t'.
+Proof.
+  cbv zeta. intros D T O Ho Hc Hh h. unfold tcp_incoming. rewrite T, O, D.
+  destruct (resend_loop _ _ _ _) as [w1 c1]. cbn [fst] in *.
+  set (tr := get_tcp w1 s) in *.
+  set (t2 := tr <| t_cwnd := t_cwnd tr + t_mss tr * acked / t_cwnd tr |>).
+  assert (t_open t2 = true /\ t_chan t2 = Some ci /\ t_connect_h t2 = None /\ t_send_h t2 = t_send_h tr /\
+          t_inflight t2 = t_inflight tr /\ t_mss t2 = t_mss tr) as (A1 & A2 & A3 & A4 & A5 & A6)
+    by (unfold t2; destruct tr; simpl in *; auto 10).
+  destruct (t_inflight t2 + t_mss t2 <=? t_cwnd t2) eqn:Wr.
+  - apply Z.leb_le in Wr. unfold tcp_maybe_wakeup_writer. rewrite get_set_tcp.
+    destruct (t_send_h t2) as [h0|] eqn:Sh.
+    + set (t3 := t2 <| t_send_h := None |>).
+      assert (t_open t3 = true /\ t_chan t3 = Some ci /\ t_connect_h t3 = None /\
+              t_inflight t3 + t_mss t3 <= t_cwnd t3) as (B1 & B2 & B3 & B4)
+        by (unfold t3; destruct t2; simpl in *; auto).
+      pose proof (async_write_post cx s (t_send_buf t2) h0 (set_tcp (set_tcp w1 s t2) s t3) ci) as P.
+      cbv zeta in P. rewrite get_set_tcp in P. specialize (P B1 B2 B3 B4).
+      destruct (tcp_async_write_impl cx s (t_send_buf t2) h0 (set_tcp (set_tcp w1 s t2) s t3)) as [w2 c2].
+      cbn [fst] in *. rewrite P. discriminate.
+    + cbn [fst]. rewrite get_set_tcp, Sh. discriminate.
+  - apply Z.leb_gt in Wr. cbn [fst]. rewrite get_set_tcp. intros _. lia.
+Qed.
+
+(* ---------- the same statement is FALSE of the tree before the D33 repair ---------- *)
+From Sim Require Import Current Script.
+
+Definition before_d33 : variant :=
+  {| d2_clock_fixed := true; d17_resolver_back := true; d1_bytes_sent_init := true;
+     d15_udp_release_whole := true; d16_udp_close_clears := true;
+     d7_wakeup_fixed := true; d6_close_clears := true; d12_accept_visible_ep := true;
+     d13_acceptor_close := true; d14_nat_syn_only := true; d18_accept_mss := true;
+     d26_writer_wakeup := true; d11a_drop_guard := true; d27_synack_guard := true;
+     d8_drop_unaccounts := true; d9_drop_cb_kept := true; d25_resolver_order := true; d11b_drop_via_fwd := true;
+     d28_proxy_one_lookup := true; d29_proxy_v6_authority := true; d30_socks_parse := true; d31_http_stall_reads := true;
+     d32_socks_udp_header := true; d24_close_resets_backlog := true; d23_single_bind := true; d5_resolver_dtor := true;
+     d3_udp_wait_write := true; d33_writer_level := false |}.
+
+(* a writer parked while the window was full; a tail drop then took a segment out of
+   the in-flight account (window open again, nobody woken); now the last ACK arrives *)
+Definition d33_sock : tcp :=
+  (tcp_fresh 0 false) <| t_open := true |> <| t_chan := Some 0 |> <| t_mss := 1000 |> <| t_cwnd := 2000 |>
+    <| t_inflight := 1000 |> <| t_outst := [(5, 1000)] |> <| t_send_h := Some 7 |> <| t_send_buf := [[1; 2; 3]] |>.
+Definition d33_state : net := set_tcp net0 1 d33_sock.
+Definition d33_ack : packet :=
+  {| p_type := PAck; p_ec := 0; p_buf := []; p_from := ep_none; p_overhead := 20; p_hops := []; p_chan := None;
+     p_seq := 5; p_bytectr := 0; p_drop := None |}.
+
+Theorem writer_left_blocked_with_room_before_d33_refuted :
+  let cx := mkcx before_d33 0 in
+  let t' := get_tcp (fst (tcp_incoming cx 1 d33_ack d33_state)) 1 in
+  t_send_h t' = Some 7 /\ t_inflight t' = 0 /\ t_inflight t' + t_mss t' <= t_cwnd t' /\ t_outgoing t' = [].
+Proof. vm_compute. repeat split; discriminate. Qed.
+
+(* the same input on the tree as it stands: the parked write is run *)
+Theorem writer_is_woken_on_the_same_input_now :
+  let cx := mkcx current 0 in
+  t_send_h (get_tcp (fst (tcp_incoming cx 1 d33_ack d33_state)) 1) = None.
+Proof. vm_compute. reflexivity. Qed.
